@@ -1,6 +1,5 @@
 PROP = dict(
     id="C02",
-    disabled=True,
     engines=["c02"],
     go_tags=["c02"],
     gen_files={"MM/Gen/C02.lean": "c02"},
